@@ -33,6 +33,8 @@ func Cmp(g *G, n int) []Program {
 				g.Load(r, neg, d, e, 0, g.Mode())
 			case k < 10: // neighbouring exponent
 				g.Load(r, neg, base, e+int64(g.Pick(-1, 1)), 0, g.Mode())
+			case k < 11: // exponents at the opposite ends of the int32 range (their difference overflows int32)
+				g.Load(r, neg != (g.R.Intn(4) == 0), g.Digits(1+g.R.Intn(20)), g.ExtremeExp(), 0, g.Mode())
 			default:
 				g.Load(r, g.Bool(), g.Digits(g.Len()), e+int64(g.R.Intn(3)-1), 0, g.Mode())
 			}
